@@ -234,6 +234,13 @@ func sweepCases(all bool) []*Case {
 						c.R = Script{Chunks: ch, EOFData: len(ch) == 1 && ch[0] == 5}
 						add(c)
 					}
+					for _, rk := range append([]string{"plain"}, concreteReaders...) {
+						c := base
+						c.RK = rk
+						add(c)
+						c.Content = ""
+						add(c)
+					}
 					if pre != "" {
 						continue
 					}
@@ -258,6 +265,9 @@ func sweepCases(all bool) []*Case {
 				add(base)
 				e := base
 				e.Content = ""
+				add(e)
+				e = base
+				e.Warm = 2
 				add(e)
 				for k := 0; k <= L+16; k++ {
 					if k > L && (kind != "struct" && kind != "*struct" && kind != "slice") {
@@ -304,6 +314,9 @@ func sweepCases(all bool) []*Case {
 		for _, kind := range s.kinds {
 			base := Case{Codec: s.codec, Dir: "roundtrip", Kind: kind, Content: mon.Q(s.text), Num: "12345678901234567890123456789.5e-3"}
 			add(base)
+			wm := base
+			wm.Warm = 1
+			add(wm)
 			for _, ch := range [][]int{{1}, {0, 0, 2}, {7}} {
 				c := base
 				c.R = Script{Chunks: ch, EOFData: ch[0] == 7}
@@ -338,6 +351,10 @@ func sweepCases(all bool) []*Case {
 	for _, kind := range []string{"reader", "readcloser", "writerto", "[]byte", "string"} {
 		add(Case{Codec: "bytestream", Dir: "produce", Kind: kind, Content: "0123456789abcde\n", Rep: mib, O: Script{Chunks: []int{4096, 1, 70000}}})
 	}
+	for _, rk := range concreteReaders {
+		add(Case{Codec: "bytestream", Dir: "consume", Kind: "*[]byte", Content: "0123456789abcde\n", Rep: mib, RK: rk})
+		add(Case{Codec: "bytestream", Dir: "consume", Kind: "*iface-bytes", Content: "0123456789abcde\n", Rep: mib / 16, RK: rk})
+	}
 	add(Case{Codec: "text", Dir: "consume", Kind: "*string", Content: "0123456789abcde\n", Rep: mib, R: Script{Chunks: []int{33000}}})
 	add(Case{Codec: "text", Dir: "produce", Kind: "string", Content: "0123456789abcde\n", Rep: mib})
 	for _, codec := range []string{"json", "xml", "yaml"} {
@@ -352,6 +369,8 @@ func sweepCases(all bool) []*Case {
 	}
 	return out
 }
+
+var concreteReaders = []string{"bytes.Buffer", "bytes.Reader", "strings.Reader"}
 
 func pick(r *rand.Rand, l []string) string { return l[r.Intn(len(l))] }
 
@@ -403,6 +422,13 @@ func genCase(r *rand.Rand, allowHuge bool) *Case {
 				}
 			}
 			c.R = genReadScript(r, total, 25)
+			// the reader: without Close, or one of the concrete standard readers
+			switch r.Intn(10) {
+			case 0:
+				c.RK = "plain"
+			case 1, 2:
+				c.RK, c.R = concreteReaders[r.Intn(len(concreteReaders))], Script{}
+			}
 			c.DBuf = []int{0, 1, 3, 64, 512, 4096}[r.Intn(6)]
 			if total > 64<<10 && c.DBuf < 512 {
 				c.DBuf = 512
@@ -421,6 +447,9 @@ func genCase(r *rand.Rand, allowHuge bool) *Case {
 			switch c.Kind {
 			case "reader", "readcloser", "dual", "writerto":
 				c.O = genReadScript(r, total, 15)
+			}
+			if r.Intn(4) == 0 && total < 100000 {
+				c.Warm = 1 + r.Intn(2) // the producer instance is reused
 			}
 		}
 	case "json", "xml", "yaml":
@@ -457,6 +486,9 @@ func genCase(r *rand.Rand, allowHuge bool) *Case {
 			}
 		}
 		c.Num = pick(r, numPool)
+		if r.Intn(5) == 0 {
+			c.Warm = 1 // producer and consumer instances are reused
+		}
 		v, _, _ := buildValue(c)
 		n := refLen(c.Codec, v)
 		// at most one side is faulty, so that each fault is actually reached
